@@ -1020,6 +1020,15 @@ def check_sampler_init(ctx: Ctx, rule: str):
                 ctx.undecided(rule, f, sup[0], f"{f.qualname}: super().init_sampling is not called with this call's (reference, ground truth) (not a verdict)",
                               key=f"sampler-init:{f.qualname}")
                 continue
+            # what the base recorded stays what the sampler holds: an override that stores something else into the reference / ground-truth
+            # fields afterwards (a filtered copy, a snapshot) makes every quantity read from `the reference` a quantity of another continuum
+            over = [s for s in walk_no_nested(f.node) if isinstance(s, (ast.Assign, ast.AugAssign)) for t in (s.targets if isinstance(s, ast.Assign) else [s.target])
+                    if norm(t) in (f"{sn}._reference_continuum", f"{sn}._ground_truth_annotators") and norm(getattr(s, "value", None)) not in (p_ref, p_gt)]
+            if over:
+                ctx.bad(rule, f, over[0], f"{f.qualname} replaces what super().init_sampling recorded (`{norm(over[0])[:80]}`): the sampler no longer holds the continuum / the "
+                        f"ground truth it was given, so the bounds, the average unit length and the units it samples from are those of another object",
+                        key=f"sampler-init:override-store:{f.qualname}")
+                continue
             nodes = [cfg.node_of(s) for s in sup]
             ctx.check(bool(nodes) and cfg.must_pass(EXIT, [n for n in nodes if n is not None]), rule, f, None,
                       f"every normal return of {f.qualname} has passed super().init_sampling({p_ref}, {p_gt})",
